@@ -18,3 +18,5 @@ def run(ctx):
     ctx.guard(k17_entry, ctx, "C09")
     ctx.guard(k18_annotate, ctx, "C09")
     run_kernels(ctx, ["K7", "K8", "K14", "K16", "K3", "K5"], "C09")
+    from ..rules_misc import fragment_cache_rule
+    ctx.guard(fragment_cache_rule, ctx, "C09.no-fragment-cache")
